@@ -73,12 +73,25 @@ func (c c02) sessions(tier string) []c02Case {
 	var out []c02Case
 	maxLen := 2
 	if tier == "thorough" {
-		maxLen = 3
+		maxLen = 4
 	}
 	cl := sess.Op{Op: "close"}
 	// (i) all short programs, every I80 write rotates, tiny write buffer, ending in Close
 	for _, p := range progs(c02Alphabet(), maxLen) {
 		out = append(out, c02Case{Name: "i", Mode: mode, Sess: mkDBSession(small, append(append([]sess.Op{}, p...), cl)...)})
+	}
+	if tier == "thorough" {
+		// other buffer / memstore combinations: every operation rotates (1 B), tables written byte-wise (5 B buffer),
+		// and a buffer larger than a table (the whole table goes out in Close)
+		for _, cfg := range []sess.Cfg{
+			{Mem: 1, Thresh: 0, Ratio: 1.0, RBuf: 7, WBuf: 5, Async: async},
+			{Mem: 90, Thresh: 0, Ratio: 1.0, RBuf: 4096, WBuf: 4096, Async: async},
+			{Mem: 200, Thresh: 1, Ratio: 0.5, RBuf: 16, WBuf: 64, Async: async},
+		} {
+			for _, p := range progs(c02Alphabet(), 3) {
+				out = append(out, c02Case{Name: "i-cfg", Mode: mode, Sess: mkDBSession(cfg, append(append([]sess.Op{}, p...), cl)...)})
+			}
+		}
 	}
 	// (ii) compaction placements: after two flushed tables, and after close + reopen
 	a := c02Alphabet()
@@ -126,7 +139,7 @@ func (c c02) sessions(tier string) []c02Case {
 	crafted := mkDBSession(small, a[0], a[1], a[2], sess.Op{Op: "mark", Text: "RELEASE"}, sess.Op{Op: "put", K: "c", V: "I80"}, cl)
 	nHold := 12
 	if tier == "thorough" {
-		nHold = 40
+		nHold = 70
 	}
 	for n := 0; n < nHold; n++ {
 		out = append(out, c02Case{Name: fmt.Sprintf("vi-hold-flusher-%d", n), Mode: mode, Sess: crafted, Hold: &ktrace.Hold{Class: "flusher", N: n, Release: "RELEASE"}})
